@@ -11,7 +11,8 @@ partial writes, equality of unpickled values.
 import ast
 
 from sa import AnalysisError
-from sa.astutil import dotted, src, stmt_text, params, find_stmts, calls_in, method_name, walk_no_nested, const
+from sa.pattern import pmatch, pfind
+from sa.astutil import dotted, src, stmt_text, params, find_stmts, calls_in, method_name, walk_no_nested, const, resolved, deep_resolved
 from sa.paths import PathEnumerator, Event
 
 
@@ -61,7 +62,8 @@ class Proto:
                 evs.append(Event('COMPUTE', s, src(c)))
             elif m == 'touch':
                 evs.append(Event('TOUCH', s))
-            elif name in REMOVERS or (m in ('unlink', 'rename', 'replace', 'rmdir') and isinstance(c.func, ast.Attribute) and isinstance(c.func.value, ast.Name) and c.func.value.id.startswith('cache')):
+            elif name in REMOVERS or (m in ('unlink', 'rmdir') and isinstance(c.func, ast.Attribute)) or \
+                    (m in ('rename', 'replace') and isinstance(c.func, ast.Attribute) and 'cach' in src(c.func.value)):   # whatever the path object is called
                 evs.append(Event('REMOVE', s, src(c)))
         if isinstance(s, ast.Expr) and isinstance(s.value, (ast.Yield, ast.YieldFrom)):
             evs.append(Event('YIELD', s, src(s.value.value) if s.value.value is not None else None))
@@ -335,8 +337,12 @@ def check_key(model, rep):
                     kw_ok = True
     rep.ob('R18.4', w.key, w.where(), kw_ok, 'keyword names and values are hashed in sorted order' if kw_ok else
            'keyword arguments do not enter the key with name and value, order-independently', statement='key-keywords')
-    uses = [s for s in w.body if isinstance(s, ast.Assign) and src(s.targets[0]) == 'cachefile']
-    ok = len(uses) == 1 and src(uses[0].value).replace(' ', '') == 'caching.current/hkey' and any(isinstance(s, ast.Assign) and src(s.targets[0]) == 'hkey' and src(s.value) == 'h.hexdigest()' for s in w.body)
+    # the file that is opened is <cache dir> / <hex digest of the hasher>, whatever the intermediate values are called
+    opens = [c for c in calls_in(w.node) if method_name(c) == 'open' and isinstance(c.func, ast.Attribute)]
+    ok = len(opens) == 1 and len(hdef) == 1
+    if ok:
+        m = pmatch('caching.current / K_', resolved(w.node, opens[0].func.value))
+        ok = m is not None and src(resolved(w.node, m['K_'])) == src(hdef[0].targets[0]) + '.hexdigest()'
     rep.ob('R18.4', w.key, w.where(), ok, 'the entry file is named by the full hex digest' if ok else 'the cache file name is not the full digest of the key', statement='key-filename')
     # bypass when caching is off
     first = next((s for s in w.body if isinstance(s, ast.If)), None)
@@ -345,7 +351,12 @@ def check_key(model, rep):
     # Recursion
     r = model.func('cache:Recursion.__iter__')
     rt = src(r.node)
-    ok = 'self.__nutils_hash__.hex()' in rt and "cachepath / '{:04d}'.format(i)" in rt.replace('cachepath/', 'cachepath / ')
+    ropens = [c for c in calls_in(r.node) if method_name(c) == 'open' and isinstance(c.func, ast.Attribute)]
+    loops = [l for l in ast.walk(r.node) if isinstance(l, ast.For) and src(l.iter) == 'itertools.count()' and isinstance(l.target, ast.Name)]
+    ok = len(ropens) == 1 and len(loops) == 1 and any(x is ropens[0] for x in ast.walk(loops[0]))
+    if ok:   # the file opened in iteration i is <cache dir> / <hex nutils hash of the instance> / <i, zero padded>
+        m = pmatch("caching.current / H_ / '{:04d}'.format(I_)", deep_resolved(r.node, ropens[0].func.value))
+        ok = m is not None and src(m['H_']) == 'self.__nutils_hash__.hex()' and src(m['I_']) == loops[0].target.id
     rep.ob('R18.4', r.key, r.where(), ok, 'Recursion stores one file per index under the hex nutils hash of the instance' if ok else
            'Recursion no longer uses <hash>/<index> files', statement='recursion-files')
 
